@@ -90,7 +90,7 @@ func encodeProcessorOptions(opt *ProcessorOptions) *internal.ProcessorOptions {
 
 	// Set expression, if set.
 	if opt.Expr != nil {
-		pb.Expr = opt.Expr.String()
+		pb.Expr = influxql.StringForCodec(opt.Expr)
 	}
 
 	// Set the location, if set.
@@ -112,18 +112,21 @@ func encodeProcessorOptions(opt *ProcessorOptions) *internal.ProcessorOptions {
 	}
 
 	// Fill value can only be a number. Set it if available.
-	if v, ok := opt.FillValue.(float64); ok {
+	switch v := opt.FillValue.(type) {
+	case float64:
 		pb.FillValue = v
+	case int64: // fill(5): both parsers keep the integer
+		pb.FillValue = float64(v)
 	}
 
 	// Set condition, if set.
 	if opt.Condition != nil {
-		pb.Condition = opt.Condition.String()
+		pb.Condition = influxql.StringForCodec(opt.Condition)
 	}
 
 	// Set value condition, if set.
 	if opt.ValueCondition != nil {
-		pb.ValueCondition = opt.ValueCondition.String()
+		pb.ValueCondition = influxql.StringForCodec(opt.ValueCondition)
 	}
 
 	// set the sort fields
@@ -441,7 +444,7 @@ func encodeUnnests(iUnnests influxql.Unnests) []*internal.Unnest {
 	unnests := make([]*internal.Unnest, len(iUnnests))
 	for i, u := range iUnnests {
 		unnest := &internal.Unnest{
-			Expr:    u.Expr.String(),
+			Expr:    influxql.StringForCodec(u.Expr),
 			Aliases: u.Aliases,
 		}
 		unnest.DstType = make([]int32, len(u.DstType))
@@ -459,7 +462,7 @@ func EncodeJoinCases(joins []*influxql.Join) []*internal.JoinCase {
 		dstJoin := &internal.JoinCase{
 			LSrc:      join.LSrc.String(),
 			RSrc:      join.RSrc.String(),
-			Condition: join.Condition.String(),
+			Condition: influxql.StringForCodec(join.Condition),
 			JoinType:  int32(join.JoinType),
 		}
 		dstJoins = append(dstJoins, dstJoin)
@@ -483,7 +486,7 @@ func EncodeQuerySchema(schema hybridqp.Catalog) *internal.QuerySchema {
 
 	pb := &internal.QuerySchema{
 		ColumnNames: schema.GetColumnNames(),
-		QueryFields: schema.GetQueryFields().String(),
+		QueryFields: influxql.FieldsStringForCodec(schema.GetQueryFields()),
 		Unnests:     encodeUnnests(schema.GetUnnests()),
 	}
 
